@@ -20,14 +20,56 @@ pub fn kind_of_name(s: &str) -> ValueKind {
     *ALL.iter().find(|k| k.to_string() == s).unwrap_or_else(|| panic!("unknown kind {s}"))
 }
 
+fn describe(kinds: &[ValueKind]) -> String {
+    crate::util::quiet_catch(|| value_kinds_description_json(kinds)).unwrap_or_else(|m| format!("<panic: {m}>"))
+}
+
+/// the items of a phrase joined as 'a', 'a or b', 'a, b, or c' (the specification re-joins them and compares with the phrase)
+fn items_of(phrase: &str) -> Vec<String> {
+    if let Some(i) = phrase.rfind(", or ") {
+        let mut v: Vec<String> = phrase[..i].split(", ").map(|s| s.to_string()).collect();
+        v.push(phrase[i + 5..].to_string());
+        v
+    } else if let Some(i) = phrase.find(" or ") {
+        vec![phrase[..i].to_string(), phrase[i + 4..].to_string()]
+    } else {
+        vec![phrase.to_string()]
+    }
+}
+
 fn run(kinds: &[ValueKind], out: &mut Out) {
     let names: Vec<String> = kinds.iter().map(|k| k.to_string()).collect();
+    let phrase = describe(kinds);
     out.emit(&json!({
         "e": "reset",
         "inp": {"kinds": names},
-        "out": crate::util::quiet_catch(|| value_kinds_description_json(kinds)).unwrap_or_else(|m| format!("<panic: {m}>")),
+        "items": items_of(&phrase),
+        "out": phrase,
         "qout": crate::util::quiet_catch(|| value_kinds_description_query_param(kinds)).unwrap_or_else(|m| format!("<panic: {m}>")),
     }));
+}
+
+/// the vocabulary and the order of the implementation, observed once: the phrase of every single kind, of the empty list, and every
+/// ordered pair of items that occurs in the phrase of one of the 256 subsets (presented in declaration order)
+fn probe(out: &mut Out) {
+    let mut names = serde_json::Map::new();
+    for k in ALL {
+        names.insert(k.to_string(), J::String(describe(&[k])));
+    }
+    let mut pairs: Vec<(String, String)> = vec![];
+    for mask in 1u32..256 {
+        let set: Vec<ValueKind> = (0..8).filter(|b| mask & (1 << b) != 0).map(|b| ALL[b]).collect();
+        let it = items_of(&describe(&set));
+        for i in 0..it.len() {
+            for j in i + 1..it.len() {
+                let p = (it[i].clone(), it[j].clone());
+                if !pairs.contains(&p) {
+                    pairs.push(p);
+                }
+            }
+        }
+    }
+    out.emit(&json!({"e": "probe", "names": names, "empty": describe(&[]), "pairs": pairs.iter().map(|(a, b)| json!([a, b])).collect::<Vec<_>>()}));
 }
 
 pub fn main(args: &[String]) {
@@ -72,7 +114,8 @@ pub fn main(args: &[String]) {
                 run(&v, &mut out);
             }
         }
-        _ => panic!("usage: dh kinds replay|subsets PERMS|random N MAXLEN"),
+        Some("probe") => probe(&mut out),
+        _ => panic!("usage: dh kinds replay|subsets PERMS|random N MAXLEN|probe"),
     }
     out.flush();
 }
